@@ -673,6 +673,10 @@ ZDICT_optimizeTrainFromBuffer_fastCover(
       LOCALDISPLAYLEVEL(displayLevel, 1, "Incorrect k\n");
       return ERROR(parameter_outOfBound);
     }
+    if (f == 0 || f > FASTCOVER_MAX_F) {   /* before the frequency table of 2^f cells is allocated and filled */
+      LOCALDISPLAYLEVEL(displayLevel, 1, "Incorrect f\n");
+      return ERROR(parameter_outOfBound);
+    }
     if (nbSamples == 0) {
       LOCALDISPLAYLEVEL(displayLevel, 1, "FASTCOVER must have at least one input file\n");
       return ERROR(srcSize_wrong);
